@@ -378,7 +378,7 @@ func runWs(fx *sl.Fixture, w wsCase) (res wsResult) {
 		// packets until one comes through, so that the case proper starts with the channel attached
 		probe := []byte("probe-packet")
 		got := false
-		deadline := time.Now().Add(sl.Watchdog)
+		deadline := time.Now().Add(parkBudget)
 		for !got && time.Now().Before(deadline) {
 			fx.Stream.WriteRtpPacket(&rtp.Packet{Channel: 0, Data: probe})
 			for {
@@ -390,6 +390,9 @@ func runWs(fx *sl.Fixture, w wsCase) (res wsResult) {
 					got = true
 				}
 			}
+		}
+		if !got {
+			parkBudget = 200 * time.Millisecond
 		}
 		// let stragglers of the probing arrive
 		sl.WaitUntil(func() bool {
@@ -455,8 +458,12 @@ func runWs(fx *sl.Fixture, w wsCase) (res wsResult) {
 		return
 	}
 	// the consumption goroutine may still be inside its last Consume: wait for the expected frames
-	deadline := time.Now().Add(sl.Watchdog)
-	for frames < len(res.expect) && time.Now().Before(deadline) {
+	deadline := time.Now().Add(parkBudget)
+	for frames < len(res.expect) {
+		if !time.Now().Before(deadline) {
+			parkBudget = 200 * time.Millisecond // the missing frames are reported below; do not wait as long again
+			break
+		}
 		it, ok := c.TryNext(50 * time.Millisecond)
 		if ok && (it.Kind == sl.KFrame) {
 			frames++
